@@ -2,10 +2,16 @@
   C02 — What a handler returns is what the caller receives (wire fidelity).
 
   Encoding (`json.Marshal` over the struct tags) and decoding (the hand-written walkers) are separate code; the theorems
-  say, for *all* values, where `decode ∘ encode` is the identity (up to nil-vs-empty), characterise that fragment exactly
-  by the decidable predicate `supported…`, and exhibit one concrete counterexample for every construct that is lost.
-  Below that: string escaping is invertible and never leaves a raw line break, an SSE event written by `WriteEvent` is
-  read back by any conforming reader, and by the library's own per-line reader, as the one JSON text that went in.
+  say, for *all* values, that `decode ∘ encode` is the identity (up to nil-vs-empty), and that the decoders still refuse
+  what is malformed. Below that (`C02Wire`): string escaping is invertible and never leaves a raw line break, an SSE
+  event written by `WriteEvent` is read back by any conforming reader, and by the library's own per-line reader, as the
+  one JSON text that went in.
+
+  History: on the tree first studied the full statement was false — empty text / empty image fields were refused
+  ("text is missing"), `audio` had no decoder case, `NewEmbeddedResource` wrote the tag `embedded_resource` while the
+  decoder only knew `resource`, embedded resources with empty text / blob / uri were refused, annotations were dropped,
+  and a `null` prompt message was a nil dereference (findings `content:{text,image,audio,embedded,annotations}:*` and
+  their `content:prompt-*` twins, all fixed in mcp_tools.go / mcp_prompts.go). The model below is the repaired code.
 -/
 import Mcp.Model.Content
 import Mcp.Model.Escape
@@ -22,44 +28,62 @@ def normResult (r : CallToolResult) : CallToolResult :=
       | c => c,
     structured := nullAsNil r.structured }
 
-/-- **C02 for tool results as stated**: every result a handler can build comes back as it was.
-    False of the code under study (see the counterexamples); `C02_roundtrip_iff` says exactly where it holds. -/
-def C02_roundtrip : Prop := ∀ r : CallToolResult, parseResult (encodeResult r) = .ok (normResult r)
-
-/-- what `parseContent` can take back: non-empty text, images with data and a MIME type — no annotations, no audio,
-    no embedded resource -/
-def supportedContent : Content → Bool
-  | .text s none => !s.isEmpty
-  | .image d m none => !d.isEmpty && !m.isEmpty
-  | _ => false
-
-def supportedResult (r : CallToolResult) : Bool :=
-  match r.content with
-  | none => true
-  | some cs => cs.all supportedContent
-
-/-! ## content items -/
-
 private theorem isEmpty_false {s : Text} (h : (!s.isEmpty) = true) : s ≠ [] := by
   cases s <;> simp_all
 
-private theorem parseContent_text' (s : Text) (rest : Obj) :
-    parseContent ((t!"type", .str tagText) :: (t!"text", .str s) :: rest)
-      = if s = [] then .error .textMissing else .ok (.text s none) := by
-  simp [parseContent, extractString, lookup, tagText]
+/-! ## annotations -/
 
-private theorem parseContent_image' (d m : Text) (rest : Obj) :
-    parseContent ((t!"type", .str tagImage) :: (t!"data", .str d) :: (t!"mimeType", .str m) :: rest)
-      = if d = [] ∨ m = [] then .error .imageMissing else .ok (.image d m none) := by
-  simp [parseContent, extractString, lookup, tagImage]
+private theorem parseAudience_map (aud : List Text) : parseAudience (aud.map .str) = some aud := by
+  induction aud with
+  | nil => rfl
+  | cons a rest ih => simp [parseAudience, ih]
 
-private theorem parseContent_text (s : Text) (rest : Obj) (h : s ≠ []) :
-    parseContent ((t!"type", .str tagText) :: (t!"text", .str s) :: rest) = .ok (.text s none) := by
-  simp [parseContent_text', h]
+private theorem parseAnnotations_encode (a : Annotations) :
+    ∃ m, encodeAnnotations a = .obj m ∧ parseAnnotations m = some a := by
+  refine ⟨_, rfl, ?_⟩
+  obtain ⟨aud, ⟨pm, pe⟩⟩ := a
+  have hz : ∀ (h : Num.isZero ⟨pm, pe⟩ = true), pm = 0 ∧ pe = 0 := by
+    intro h; simpa [Num.isZero] using h
+  cases aud with
+  | nil =>
+    by_cases h : Num.isZero ⟨pm, pe⟩ = true
+    · obtain ⟨h1, h2⟩ := hz h
+      subst h1 h2
+      simp [parseAnnotations, optField, Num.isZero, lookup]
+    · cases pe with
+      | zero => simp [parseAnnotations, optField, h, lookup, Num.toJson]
+      | succ e => simp [parseAnnotations, optField, h, lookup, Num.toJson]
+  | cons a0 rest =>
+    have hp := parseAudience_map (a0 :: rest)
+    simp only [List.map_cons] at hp
+    by_cases h : Num.isZero ⟨pm, pe⟩ = true
+    · obtain ⟨h1, h2⟩ := hz h
+      subst h1 h2
+      simp [parseAnnotations, optField, Num.isZero, lookup, hp]
+    · cases pe with
+      | zero => simp [parseAnnotations, optField, h, lookup, Num.toJson, hp]
+      | succ e => simp [parseAnnotations, optField, h, lookup, Num.toJson, hp]
 
-private theorem parseContent_image (d m : Text) (rest : Obj) (hd : d ≠ []) (hm : m ≠ []) :
-    parseContent ((t!"type", .str tagImage) :: (t!"data", .str d) :: (t!"mimeType", .str m) :: rest) = .ok (.image d m none) := by
-  simp [parseContent_image', hd, hm]
+/-- annotations (any audience list, any priority) come back from what `annField` appends to an item's own fields -/
+private theorem parseAnnotated_annField (pre : Obj) (a : Option Annotations) (hpre : lookup pre t!"annotations" = none) :
+    parseAnnotated (pre ++ annField a) = a := by
+  have hl : ∀ (post : Obj), lookup (pre ++ post) t!"annotations" = lookup post t!"annotations" := by
+    intro post
+    induction pre with
+    | nil => rfl
+    | cons kv rest ih =>
+      obtain ⟨k, v⟩ := kv
+      simp only [List.cons_append, lookup] at hpre ⊢
+      split
+      · next hk => simp [hk] at hpre
+      · next hk => simp only [hk, if_false] at hpre; exact ih hpre
+  cases a with
+  | none => simp [parseAnnotated, extractMap, hl, annField]
+  | some a =>
+    obtain ⟨m, hm, hp⟩ := parseAnnotations_encode a
+    simp [parseAnnotated, extractMap, hl, annField, lookup, hm, hp]
+
+/-! ## content items -/
 
 /-- the object `encodeContent` builds (it always builds an object) -/
 def contentObj : Content → Obj
@@ -71,353 +95,120 @@ def contentObj : Content → Obj
 private theorem encodeContent_obj (c : Content) : encodeContent c = .obj (contentObj c) := by
   cases c <;> rfl
 
-/-- **one item**: a supported item decodes to itself -/
-theorem C02_content_roundtrip (c : Content) (h : supportedContent c = true) :
-    parseContent (contentObj c) = .ok c := by
-  cases c with
-  | text s a =>
-    cases a with
-    | none => exact parseContent_text s [] (isEmpty_false (by simpa [supportedContent] using h))
-    | some a => simp [supportedContent] at h
-  | image d m a =>
-    cases a with
-    | none =>
-      simp only [supportedContent, Bool.and_eq_true] at h
-      exact parseContent_image d m [] (isEmpty_false h.1) (isEmpty_false h.2)
-    | some a => simp [supportedContent] at h
-  | audio d m a => simp [supportedContent] at h
-  | embedded r a => simp [supportedContent] at h
+private theorem parseResourceContents_encode (rc : ResourceContents) :
+    ∃ m, encodeResourceContents rc = .obj m ∧ parseResourceContents m = .ok rc := by
+  cases rc with
+  | text uri mime text =>
+    refine ⟨_, rfl, ?_⟩
+    cases mime <;> simp [parseResourceContents, extractString, lookupStr?, lookup, optField]
+  | blob uri mime blob =>
+    refine ⟨_, rfl, ?_⟩
+    cases mime <;> simp [parseResourceContents, extractString, lookupStr?, lookup, optField]
 
-/-- **one item, converse**: an unsupported item is rejected or comes back different -/
-theorem C02_content_unsupported (c : Content) (h : supportedContent c = false) :
-    parseContent (contentObj c) ≠ .ok c := by
+/-- **one item**: every item the constructors can build — text, image, audio, embedded text / blob resource, with any
+    strings (empty included) and any annotations — decodes to itself -/
+theorem C02_content_roundtrip (c : Content) : parseContent (contentObj c) = .ok c := by
   cases c with
   | text s a =>
-    cases a with
-    | none =>
-      have hs : s = [] := by cases s <;> simp_all [supportedContent]
-      subst hs
-      simp [contentObj, annField, parseContent_text']
-    | some a =>
-      simp only [contentObj, annField, List.cons_append, List.nil_append, parseContent_text']
-      split <;> simp
+    have ha := parseAnnotated_annField [(t!"type", .str tagText), (t!"text", .str s)] a (by simp [lookup])
+    cases a <;> simp_all [contentObj, parseContent, extractString, lookupStr?, lookup, tagText, annField]
   | image d m a =>
-    cases a with
-    | none =>
-      have hs : d = [] ∨ m = [] := by
-        cases d <;> cases m <;> simp_all [supportedContent]
-      simp [contentObj, annField, parseContent_image', hs]
-    | some a =>
-      simp only [contentObj, annField, List.cons_append, List.nil_append, parseContent_image']
-      split <;> simp
+    have ha := parseAnnotated_annField [(t!"type", .str tagImage), (t!"data", .str d), (t!"mimeType", .str m)] a (by simp [lookup])
+    cases a <;> simp_all [contentObj, parseContent, extractString, lookupStr?, lookup, tagImage, annField]
   | audio d m a =>
-    simp [contentObj, parseContent, extractString, tagAudio]
+    have ha := parseAnnotated_annField [(t!"type", .str tagAudio), (t!"data", .str d), (t!"mimeType", .str m)] a (by simp [lookup])
+    cases a <;> simp_all [contentObj, parseContent, extractString, lookupStr?, lookup, tagAudio, annField]
   | embedded r a =>
-    simp [contentObj, parseContent, extractString, lookup, tagEmbedded]
+    have ha := parseAnnotated_annField [(t!"resource", encodeResourceContents r), (t!"type", .str tagEmbedded)] a (by simp [lookup])
+    obtain ⟨m, hm, hp⟩ := parseResourceContents_encode r
+    cases a <;> simp_all [contentObj, parseContent, extractString, extractMap, lookup, tagEmbedded, annField]
 
 /-! ## lists of items -/
 
-private theorem parseContents_cons (c : Content) (rest : List Content) :
-    parseContents ((c :: rest).map encodeContent) =
-      match parseContent (contentObj c) with
-      | .error e => .error e
-      | .ok c' =>
-        match parseContents (rest.map encodeContent) with
-        | .error e => .error e
-        | .ok cs => .ok (c' :: cs) := by
-  simp only [List.map_cons, encodeContent_obj, parseContents]
-  cases parseContent (contentObj c) <;> rfl
-
-/-- **every list, both directions**: the loop of `parseCallToolResult` gives the list back iff every item is supported -/
-theorem C02_contents_roundtrip_iff (cs : List Content) :
-    parseContents (cs.map encodeContent) = .ok cs ↔ cs.all supportedContent = true := by
+private theorem parseContents_encode (cs : List Content) : parseContents (cs.map encodeContent) = .ok cs := by
   induction cs with
-  | nil => simp [parseContents]
+  | nil => rfl
   | cons c rest ih =>
-    rw [parseContents_cons]
-    constructor
-    · intro h
-      cases hc : parseContent (contentObj c) with
-      | error e => simp [hc] at h
-      | ok c' =>
-        cases hr : parseContents (rest.map encodeContent) with
-        | error e => simp [hc, hr] at h
-        | ok cs' =>
-          simp only [hc, hr, Except.ok.injEq, List.cons.injEq] at h
-          obtain ⟨h1, h2⟩ := h
-          subst h1 h2
-          have hs : supportedContent c' = true := by
-            cases hsc : supportedContent c' with
-            | true => rfl
-            | false => exact absurd hc (C02_content_unsupported c' hsc)
-          simp [hs, ih.mp hr]
-    · intro h
-      simp only [List.all_cons, Bool.and_eq_true] at h
-      simp [C02_content_roundtrip c h.1, ih.mpr h.2]
+    simp only [List.map_cons, encodeContent_obj, parseContents, C02_content_roundtrip c]
+    rw [show rest.map (fun c => Json.obj (contentObj c)) = rest.map encodeContent from by simp [encodeContent_obj]] at *
+    simp [ih]
 
 /-! ## tool results -/
 
-/-- `decode ∘ encode` on a tool result, in closed form: everything but the content list always survives -/
-private theorem parseResult_encode (r : CallToolResult) :
-    parseResult (encodeResult r) =
-      match r.content with
-      | none => .ok ⟨r.metaMap, none, nullAsNil r.structured, r.isError⟩
-      | some cs =>
-        match parseContents (cs.map encodeContent) with
-        | .error e => .error e
-        | .ok cs' => .ok ⟨r.metaMap, sliceOf cs', nullAsNil r.structured, r.isError⟩ := by
+/-- **C02 for tool results, in full**: every result a handler can build — any sequence of text, image, audio and
+    embedded-resource items with arbitrary strings and annotations, the error flag, any structured content, any `_meta`
+    — is what `parseCallToolResult` makes of what `json.Marshal` wrote (nil and empty lists identified). -/
+theorem C02_roundtrip (r : CallToolResult) : parseResult (encodeResult r) = .ok (normResult r) := by
   obtain ⟨mm, content, st, ie⟩ := r
   cases mm <;> cases content <;> cases ie <;> cases st <;>
     simp [parseResult, encodeResult, asMapTarget, metaField, structuredField, optField, sliceJson, extractMap, lookup,
-      nullAsNil]
-  all_goals (cases parseContents _ <;> rfl)
+      normResult, parseContents_encode]
+  all_goals (rename_i cs; cases cs <;> rfl)
 
-/-- **C02, tool results, exact characterisation**: `decode (encode r)` is `r` (up to nil-vs-empty) **iff** every content
-    item is a non-empty text or a complete image without annotations — for all lists, strings, structured values. -/
-theorem C02_roundtrip_iff (r : CallToolResult) :
-    parseResult (encodeResult r) = .ok (normResult r) ↔ supportedResult r = true := by
-  rw [parseResult_encode]
-  obtain ⟨mm, content, st, ie⟩ := r
-  cases content with
-  | none => simp [normResult, supportedResult]
-  | some cs =>
-    simp only [supportedResult, ← C02_contents_roundtrip_iff]
-    cases hp : parseContents (cs.map encodeContent) with
-    | error e => simp
-    | ok cs' =>
-      simp only [normResult, Except.ok.injEq, CallToolResult.mk.injEq, true_and, and_true]
-      constructor
-      · intro h
-        cases cs' with
-        | nil =>
-          -- the decoder produced nothing: then there was nothing to decode
-          cases cs with
-          | nil => rfl
-          | cons c rest =>
-            rw [parseContents_cons] at hp
-            cases h1 : parseContent (contentObj c) with
-            | error e => simp [h1] at hp
-            | ok c' =>
-              cases h2 : parseContents (rest.map encodeContent) with
-              | error e => simp [h1, h2] at hp
-              | ok r' => simp [h1, h2] at hp
-        | cons c' rest' =>
-          cases cs with
-          | nil => simp [sliceOf] at h
-          | cons c rest => simp only [sliceOf, Option.some.injEq] at h; rw [h]
-      · intro h
-        cases h
-        cases cs <;> rfl
+/-- the decoder is still a checker: a text item without a `text` member (or with a non-string one) is refused … -/
+theorem C02_missing_text_rejected (rest : Obj) (h : lookupStr? rest t!"text" = none) (hty : ∀ v, (t!"type", v) ∉ rest) :
+    parseContent ((t!"type", .str tagText) :: rest) = .error .textMissing := by
+  have : lookupStr? ((t!"type", Json.str tagText) :: rest) t!"text" = none := by
+    simpa [lookupStr?, lookup] using h
+  simp [parseContent, extractString, lookup, tagText, this]
 
-/-- **C02 on the supported fragment** (the direction a user relies on) -/
-theorem C02_roundtrip_partial (r : CallToolResult) (h : supportedResult r = true) :
-    parseResult (encodeResult r) = .ok (normResult r) :=
-  (C02_roundtrip_iff r).mpr h
+/-- … and an unknown type tag still is -/
+theorem C02_unknown_type_rejected :
+    parseResult (.obj [(t!"content", .arr [.obj [(t!"type", .str t!"video"), (t!"data", .str t!"x")]])])
+      = .error (.unsupportedType t!"video") := by rfl
 
-/-- whenever the client accepts what the server sent, the error flag, the structured content and `_meta` are the
-    handler's — for every result, supported or not, and every structured value -/
-theorem C02_flags_and_structured_survive (r r' : CallToolResult) (h : parseResult (encodeResult r) = .ok r') :
-    r'.isError = r.isError ∧ r'.structured = nullAsNil r.structured ∧ r'.metaMap = r.metaMap := by
-  rw [parseResult_encode] at h
-  cases hc : r.content with
-  | none => simp only [hc, Except.ok.injEq] at h; subst h; exact ⟨rfl, rfl, rfl⟩
-  | some cs =>
-    simp only [hc] at h
-    cases hp : parseContents (cs.map encodeContent) with
-    | error e => simp [hp] at h
-    | ok cs' => simp only [hp, Except.ok.injEq] at h; subst h; exact ⟨rfl, rfl, rfl⟩
+/-- embedded resources are taken under the MCP schema's tag too (what other servers send) -/
+theorem C02_embedded_under_schema_tag (rc : ResourceContents) (a : Option Annotations) :
+    parseContent ([(t!"resource", encodeResourceContents rc), (t!"type", .str t!"resource")] ++ annField a)
+      = .ok (.embedded rc a) := by
+  have ha := parseAnnotated_annField [(t!"resource", encodeResourceContents rc), (t!"type", .str t!"resource")] a (by simp [lookup])
+  obtain ⟨m, hm, hp⟩ := parseResourceContents_encode rc
+  cases a <;> simp_all [parseContent, extractString, extractMap, lookup, tagEmbedded, annField]
 
-/-! ### where it fails: one concrete witness per construct -/
+/-! ### non-vacuity: the constructs that used to be lost -/
 
-/-- `NewTextContent("")` — "text is missing" -/
-theorem C02_empty_text_counterexample :
-    parseResult (encodeResult ⟨[], some [.text [] none], none, false⟩) = .error .textMissing := by rfl
-
-/-- `NewImageContent("", "image/png")` — "image data or mimeType is missing" -/
-theorem C02_empty_image_counterexample :
-    parseResult (encodeResult ⟨[], some [.image [] t!"image/png" none], none, false⟩) = .error .imageMissing := by rfl
-
-/-- `NewAudioContent(…)` — the decoder's switch has no "audio" case -/
-theorem C02_audio_counterexample :
-    parseResult (encodeResult ⟨[], some [.audio t!"UklGRg==" t!"audio/wav" none], none, false⟩)
-      = .error (.unsupportedType t!"audio") := by rfl
-
-/-- `NewEmbeddedResource(…)` writes `"type":"embedded_resource"`, the decoder (and the MCP schema) say `"resource"` -/
-theorem C02_embedded_type_tag_counterexample :
-    parseResult (encodeResult ⟨[], some [.embedded (.text t!"file:///a" t!"text/plain" t!"body") none], none, false⟩)
-      = .error (.unsupportedType t!"embedded_resource") := by rfl
-
-/-- annotations are accepted and silently dropped: the caller gets a different value -/
-theorem C02_annotations_counterexample :
-    parseResult (encodeResult ⟨[], some [.text t!"x" (some ⟨[t!"user"], ⟨5, 1⟩⟩)], none, false⟩)
-      = .ok ⟨[], some [.text t!"x" none], none, false⟩ := by rfl
-
-/-- one bad item poisons the whole result: the good items are lost with it -/
-theorem C02_one_bad_item_counterexample :
-    parseResult (encodeResult ⟨[], some [.text t!"fine" none, .text [] none, .image t!"aGk=" t!"image/png" none], none, true⟩)
-      = .error .textMissing := by rfl
-
-/-- hence the property as stated is false of this code -/
-theorem C02_roundtrip_fails : ¬ C02_roundtrip := by
-  intro h
-  have := (C02_roundtrip_iff ⟨[], some [.text [] none], none, false⟩).mp (h _)
-  simp [supportedResult, supportedContent] at this
-
-/-- latent behind the type tag: even under the tag the decoder expects, an embedded text resource with empty text
-    (or a blob with empty payload) is refused — "unsupported resource type" -/
-theorem C02_embedded_latent_empty_text :
-    parseContent [(t!"type", .str t!"resource"), (t!"resource", .obj [(t!"uri", .str t!"file:///a"), (t!"text", .str [])])]
-      = .error .unsupportedResource := by rfl
-
-/-- … whereas a non-empty one is taken under that tag (so the tag is the only obstacle for those) -/
-theorem C02_embedded_under_schema_tag (uri mime text : Text) (hu : uri ≠ []) (ht : text ≠ []) :
-    parseContent [(t!"resource", encodeResourceContents (.text uri mime text)), (t!"type", .str t!"resource")]
-      = .ok (.embedded (.text uri mime text) none) := by
-  cases mime <;>
-    simp [parseContent, extractString, extractMap, lookup, encodeResourceContents, optField, parseResourceContents, hu, ht]
-
-/-! ### non-vacuity -/
-
-example : supportedResult ⟨[(t!"k", .int 1)], some [.text t!"line1\nline2" none, .image t!"aGk=" t!"image/png" none, .text t!"z" none],
-    some (.obj [(t!"a", .arr [.int 1, .null, .str t!"s"])]), true⟩ = true := by rfl
-
-example : parseResult (encodeResult ⟨[(t!"k", .int 1)], some [.text t!"line1\nline2" none, .image t!"aGk=" t!"image/png" none],
+example : parseResult (encodeResult ⟨[(t!"k", .int 1)],
+    some [.text [] none, .image [] [] none, .audio t!"UklGRg==" t!"audio/wav" (some ⟨[t!"user"], ⟨5, 1⟩⟩),
+      .embedded (.text t!"file:///a" [] []) none, .embedded (.blob [] t!"m" []) (some ⟨[], ⟨0, 0⟩⟩), .text t!"a\nb" (some ⟨[t!"user", t!"assistant"], ⟨1, 0⟩⟩)],
     some (.obj [(t!"a", .null)]), true⟩)
-  = .ok ⟨[(t!"k", .int 1)], some [.text t!"line1\nline2" none, .image t!"aGk=" t!"image/png" none], some (.obj [(t!"a", .null)]), true⟩ := by
+  = .ok ⟨[(t!"k", .int 1)],
+    some [.text [] none, .image [] [] none, .audio t!"UklGRg==" t!"audio/wav" (some ⟨[t!"user"], ⟨5, 1⟩⟩),
+      .embedded (.text t!"file:///a" [] []) none, .embedded (.blob [] t!"m" []) (some ⟨[], ⟨0, 0⟩⟩), .text t!"a\nb" (some ⟨[t!"user", t!"assistant"], ⟨1, 0⟩⟩)],
+    some (.obj [(t!"a", .null)]), true⟩ := by
   rfl
 
 /-! ## prompt results (`encoding/json` struct decoding + `PromptMessage.UnmarshalJSON` → `parseContent`) -/
 
-/-- **C02 for prompts as stated** (no normalisation needed: `encoding/json` keeps nil and empty lists apart) -/
-def C02_prompt_roundtrip : Prop := ∀ r : GetPromptResult, parseGetPrompt (encodeGetPrompt r) = .ok r
-
-def supportedMessage (m : PromptMessage) : Bool :=
-  match m.content with
-  | none => true
-  | some c => supportedContent c
-
-def supportedPrompt (r : GetPromptResult) : Bool :=
-  match r.messages with
-  | none => true
-  | some ms => ms.all supportedMessage
-
 private theorem parsePromptMessage_encode (m : PromptMessage) :
-    parsePromptMessage (encodePromptMessage m) =
-      match m.content with
-      | none => .ok m
-      | some c =>
-        match parseContent (contentObj c) with
-        | .error e => .error (.promptContent e)
-        | .ok c' => .ok ⟨m.role, some c'⟩ := by
+    parsePromptMessage (encodePromptMessage m) = .ok m := by
   obtain ⟨role, content⟩ := m
   cases content with
   | none => simp [parsePromptMessage, encodePromptMessage, encodeContentOpt, lookup]
   | some c =>
     simp only [parsePromptMessage, encodePromptMessage, encodeContentOpt, encodeContent_obj]
-    simp [lookup]
-    cases parseContent (contentObj c) <;> rfl
+    simp [lookup, C02_content_roundtrip c]
 
-/-- one message: it comes back iff its content is supported; role strings are arbitrary -/
-theorem C02_message_roundtrip_iff (m : PromptMessage) :
-    parsePromptMessage (encodePromptMessage m) = .ok m ↔ supportedMessage m = true := by
-  rw [parsePromptMessage_encode]
-  obtain ⟨role, content⟩ := m
-  cases content with
-  | none => simp [supportedMessage]
-  | some c =>
-    simp only [supportedMessage]
-    cases hs : supportedContent c with
-    | true => simp [C02_content_roundtrip c hs]
-    | false =>
-      have := C02_content_unsupported c hs
-      cases hp : parseContent (contentObj c) with
-      | error e => simp
-      | ok c' =>
-        simp only [Except.ok.injEq, PromptMessage.mk.injEq, true_and, Option.some.injEq]
-        constructor
-        · intro h; subst h; exact absurd hp this
-        · intro h; cases h
-
-private theorem parsePromptMessages_iff (ms : List PromptMessage) :
-    parsePromptMessages (ms.map encodePromptMessage) = .ok ms ↔ ms.all supportedMessage = true := by
+private theorem parsePromptMessages_encode (ms : List PromptMessage) :
+    parsePromptMessages (ms.map encodePromptMessage) = .ok ms := by
   induction ms with
-  | nil => simp [parsePromptMessages]
-  | cons m rest ih =>
-    simp only [List.map_cons, parsePromptMessages, List.all_cons, Bool.and_eq_true]
-    constructor
-    · intro h
-      cases hm : parsePromptMessage (encodePromptMessage m) with
-      | error e => simp [hm] at h
-      | ok m' =>
-        cases hr : parsePromptMessages (rest.map encodePromptMessage) with
-        | error e => simp [hm, hr] at h
-        | ok ms' =>
-          simp only [hm, hr, Except.ok.injEq, List.cons.injEq] at h
-          obtain ⟨h1, h2⟩ := h
-          subst h1 h2
-          exact ⟨(C02_message_roundtrip_iff _).mp hm, ih.mp hr⟩
-    · intro h
-      simp [(C02_message_roundtrip_iff m).mpr h.1, ih.mpr h.2]
+  | nil => rfl
+  | cons m rest ih => simp [parsePromptMessages, parsePromptMessage_encode, ih]
 
-private theorem parseGetPrompt_encode (r : GetPromptResult) :
-    parseGetPrompt (encodeGetPrompt r) =
-      match r.messages with
-      | none => .ok r
-      | some ms =>
-        match parsePromptMessages (ms.map encodePromptMessage) with
-        | .error e => .error e
-        | .ok ms' => .ok ⟨r.metaMap, r.description, some ms'⟩ := by
+/-- **C02 for prompt results, in full**: every description, `_meta`, list of messages, role string and message content
+    (no normalisation needed: `encoding/json` keeps nil and empty lists apart) -/
+theorem C02_prompt_roundtrip (r : GetPromptResult) : parseGetPrompt (encodeGetPrompt r) = .ok r := by
   obtain ⟨mm, desc, msgs⟩ := r
   cases mm <;> cases desc <;> cases msgs <;>
-    simp [parseGetPrompt, encodeGetPrompt, metaField, optField, sliceJson, lookup]
-  all_goals (cases parsePromptMessages _ <;> rfl)
+    simp [parseGetPrompt, encodeGetPrompt, metaField, optField, sliceJson, lookup, parsePromptMessages_encode]
 
-/-- **C02, prompt results, exact characterisation**: for every description, `_meta`, list of messages and role strings -/
-theorem C02_prompt_roundtrip_iff (r : GetPromptResult) :
-    parseGetPrompt (encodeGetPrompt r) = .ok r ↔ supportedPrompt r = true := by
-  rw [parseGetPrompt_encode]
-  obtain ⟨mm, desc, msgs⟩ := r
-  cases msgs with
-  | none => simp [supportedPrompt]
-  | some ms =>
-    simp only [supportedPrompt, ← parsePromptMessages_iff]
-    cases parsePromptMessages (ms.map encodePromptMessage) with
-    | error e => simp
-    | ok ms' => simp
+/-- a `null` element in `messages` (malformed peer) is an error of the decoder, no longer a nil dereference -/
+theorem C02_prompt_null_message_rejected :
+    parseGetPrompt (.obj [(t!"messages", .arr [.null])]) = .error .promptStructure := by rfl
 
-theorem C02_prompt_roundtrip_partial (r : GetPromptResult) (h : supportedPrompt r = true) :
-    parseGetPrompt (encodeGetPrompt r) = .ok r :=
-  (C02_prompt_roundtrip_iff r).mpr h
-
-/-- a prompt message with empty text makes the whole `GetPrompt` call fail -/
-theorem C02_prompt_empty_text_counterexample :
-    parseGetPrompt (encodeGetPrompt ⟨[], t!"d", some [⟨t!"user", some (.text t!"q" none)⟩, ⟨t!"assistant", some (.text [] none)⟩]⟩)
-      = .error (.promptContent .textMissing) := by rfl
-
-theorem C02_prompt_audio_counterexample :
-    parseGetPrompt (encodeGetPrompt ⟨[], [], some [⟨t!"user", some (.audio t!"UklGRg==" t!"audio/wav" none)⟩]⟩)
-      = .error (.promptContent (.unsupportedType t!"audio")) := by rfl
-
-theorem C02_prompt_embedded_counterexample :
-    parseGetPrompt (encodeGetPrompt ⟨[], [], some [⟨t!"user", some (.embedded (.blob t!"file:///a" [] t!"AAEC") none)⟩]⟩)
-      = .error (.promptContent (.unsupportedType t!"embedded_resource")) := by rfl
-
-theorem C02_prompt_annotations_counterexample :
-    parseGetPrompt (encodeGetPrompt ⟨[], [], some [⟨t!"user", some (.image t!"aGk=" t!"image/png" (some ⟨[], ⟨1, 0⟩⟩))⟩]⟩)
-      = .ok ⟨[], [], some [⟨t!"user", some (.image t!"aGk=" t!"image/png" none)⟩]⟩ := by rfl
-
-theorem C02_prompt_roundtrip_fails : ¬ C02_prompt_roundtrip := by
-  intro h
-  have := (C02_prompt_roundtrip_iff ⟨[], [], some [⟨[], some (.text [] none)⟩]⟩).mp (h _)
-  simp [supportedPrompt, supportedMessage, supportedContent] at this
-
-/-- by-product (malformed peer, not a handler value): a `null` element in `messages` is a nil-pointer dereference in
-    `PromptMessage.UnmarshalJSON`, not an error -/
-theorem C02_prompt_null_message_panics :
-    parseGetPrompt (.obj [(t!"messages", .arr [.null])]) = .error .panicNilDeref := by rfl
-
-example : supportedPrompt ⟨[(t!"k", .bool true)], t!"desc", some [⟨t!"user", some (.text t!"q\r\n" none)⟩, ⟨[], none⟩,
-    ⟨t!"assistant", some (.image t!"aGk=" t!"image/png" none)⟩]⟩ = true := by decide
+example : parseGetPrompt (encodeGetPrompt ⟨[(t!"k", .bool true)], t!"desc", some [⟨t!"user", some (.text [] none)⟩, ⟨[], none⟩,
+    ⟨t!"assistant", some (.embedded (.blob t!"u" [] t!"AAEC") (some ⟨[t!"user"], ⟨25, 2⟩⟩))⟩]⟩)
+  = .ok ⟨[(t!"k", .bool true)], t!"desc", some [⟨t!"user", some (.text [] none)⟩, ⟨[], none⟩,
+    ⟨t!"assistant", some (.embedded (.blob t!"u" [] t!"AAEC") (some ⟨[t!"user"], ⟨25, 2⟩⟩))⟩]⟩ := by rfl
 
 /-! ## resource contents (`parseReadResourceResultFromJSON`: the lenient decoder) -/
 
